@@ -7,7 +7,7 @@
 //   "X ..."  what the fed model *means* (the property oracle's expectation; computed from the generator's
 //            own data structure, independently of writer, reader and Lean model)
 //   "N ..."  names files round trip (.row/.col read back with mp::NameProvider)
-//   "G ..."  number codec test lines (g_fmt -> strtod), summary only
+//   "G ..."  number codec test lines (g_fmt -> strtod; "%.17g" -> strtod for vbtol), summary only
 //   "# ..."  statistics
 // Modes: argv[1] = quick|thorough, argv[2] = seed, argv[3] = scratch dir, optional argv[4] = "probe-intmin"
 #include <cstdio>
@@ -520,7 +520,7 @@ struct Gen {
     }
     default: {
       if (m.funcs.empty()) return num(gen_double());
-      GExpr e; e.k = GExpr::CALL; e.i = rint_(0, (int)m.funcs.size() - 1); e.a = many(rint_(1, 3), depth - 1, CSYM); e.descr = gen_descr();   // 0 arguments: see probe-call0
+      GExpr e; e.k = GExpr::CALL; e.i = rint_(0, (int)m.funcs.size() - 1); e.a = many(rint_(0, 3), depth - 1, CSYM); e.descr = gen_descr();   // 0 arguments are legal (f<i> 0)
       return e;
     }
     }
@@ -587,9 +587,9 @@ static GModel gen_model(int size_class, int findings_mask) {
   h.ampl_vbtol = 0;
   if (h.num_ampl_options >= 2 && coin(30)) {     // vbtol in use
     h.ampl_options[1] = 3;
-    static const double one_digit[] = {1e-5, 0.001, 2e-7, 0.5, 3, 1e-10, 4e5, 0};
-    h.ampl_vbtol = one_digit[rnd() % 8];
-    if (findings_mask & 1) { static const double multi[] = {0.00015, 1.5e-6, 0.123, 12, 2.5e-9}; h.ampl_vbtol = multi[rnd() % 5]; }
+    static const double vbs[] = {1e-5, 0.001, 2e-7, 0.5, 3, 1e-10, 4e5, 0, 0.00015, 1.5e-6, 0.123, 12, 2.5e-9, 0.1234567890123456789, -0.0, 1.0 / 3};
+    h.ampl_vbtol = coin(70) ? vbs[rnd() % 16] : gen_double(false);
+    if (findings_mask & 1) h.ampl_vbtol = 0.123;
   } else if (findings_mask & 1) {
     h.num_ampl_options = std::max(h.num_ampl_options, 2); h.ampl_options[1] = 3; h.ampl_vbtol = 0.00015;
   }
@@ -683,7 +683,7 @@ static GModel gen_model(int size_class, int findings_mask) {
     for (int j = 0; j < n; ++j) {
       int idx = rint_(0, items - 1);
       if (s.dbl) s.dv.push_back({idx, gen_double()});
-      else { static const int iv[] = {0, 1, -1, 7, 32767, -32768, 65536, INT_MAX, INT_MIN + 1, 1000000, -999}; s.iv.push_back({idx, iv[rnd() % 11]}); }
+      else { static const int iv[] = {0, 1, -1, 7, 32767, -32768, 65536, INT_MAX, INT_MIN + 1, 1000000, -999, INT_MIN}; s.iv.push_back({idx, iv[rnd() % 12]}); }
     }
     if (s.dbl) s.kind |= 4;
     m.sufs.push_back(s);
@@ -771,8 +771,8 @@ static void run_one(GModel &m, long id, int fmt, bool comments, bool bf, int cs,
   m.h.format = fmt; m.comments = comments; m.bounds_first = bf; m.colsizes = cs;
   int saved_arith = m.h.arith_kind;
   if (fmt == mp::NLHeader::BINARY) m.h.arith_kind = mp::arith::GetKind();   // the feeder contract for binary output
-  // what "%.g" followed by strtod makes of ampl_vbtol (plain libc, independent of writer and reader)
-  char vbuf[64]; std::snprintf(vbuf, sizeof vbuf, "%.g", m.h.ampl_vbtol);
+  // what "%.17g" followed by strtod makes of ampl_vbtol (plain libc, independent of writer and reader)
+  char vbuf[64]; std::snprintf(vbuf, sizeof vbuf, "%.17g", m.h.ampl_vbtol);
   double vb_back = std::strtod(vbuf, nullptr);
   std::printf("M arith %d\n", m.h.arith_kind);
   std::printf("M run %d %d %d %d %d %s\n", fmt, comments ? 1 : 0, bf ? 1 : 0, cs, reader_flags, hexd(vb_back).c_str());
